@@ -2653,4 +2653,189 @@ theorem quic_connection_exact_conformant (hl : H.Lawful) (h32 : H.sha256.outLen 
     items hkl c hc hok (by rw [hins]; exact ptrace_of_conformant hs hsok) hcar hkeyed items1 hcar1 hsend htimes
 
 end ConformantConn
+/-! ## Retry -/
+
+section RetryVariant
+variable (maskFn : Dissect.MaskFn) (H : Crypto.Prims) (Pc : Cipher.Prims) (info : Nat → Pipeline.Info)
+
+/-- `quic_handshake_establishes` from ANY handshake state: `hpre` says what `handle_packet` finds after its pre-loop part
+    for the first datagram (a fresh session: `feedPre_fresh`; after a Retry: `after_retry_pre`) -/
+theorem quic_handshake_establishes_from (hl : H.Lawful) (L : SealLaws Pc) (dcid0 : Bytes)
+    (cr csel ch sh ca sa : Bytes) (early : Option Bytes) (sel : SuiteSel) (hsel : selectSuite csel = some sel)
+    (t : Trk) (kl0 : List Keylog.Key) (p0 : MainLoop.Pkt) (d0 : DgH) (items : List (List Keylog.Key × MainLoop.Pkt × DgH))
+    (hkl : ∀ x ∈ (kl0, p0, d0) :: items, KeylogHas x.1 cr ch sh ca sa early)
+    (c : QConn) (hr : c.raised = none)
+    (hpre : HsSt H dcid0 sel ch sh ca sa t.keyed (feedPre H (params H Pc kl0) c.st (dgDcid d0) .v1) t.tc t.ts t.cc t.sc t.core)
+    (hok : HsDgs maskFn H Pc L dcid0 sel sh ch t (d0 :: items.map (·.2.2)))
+    (htr : PTrace cr csel t.core (allIns (d0 :: items.map (·.2.2))))
+    (hcar : ∀ x ∈ (kl0, p0, d0) :: items, CarriesH info c (dgWire H Pc L dcid0 sel sh ch) x.2.1 x.2.2)
+    (hkeyed : (t.runDgs (d0 :: items.map (·.2.2))).keyed = true) (kl : List Keylog.Key) :
+    let c' := hsFeedAll (quicMachine maskFn H Pc info) c ((kl0, p0, d0) :: items)
+    let t' := t.runDgs (d0 :: items.map (·.2.2))
+    c'.raised = none ∧
+    Est H Pc kl sel .v1 (rfcGen (hashOf H sel.hash) sel.keyLen sa ca 0)
+      (quicHp (hashOf H sel.hash) ca sel.keyLen) (quicHp (hashOf H sel.hash) sa sel.keyLen) (chachaOf t'.core)
+      c'.st 0 0 t'.tc.app t'.ts.app t'.cc t'.sc ∧
+    (∀ o ∈ c'.st.out, UdpOut.exported false (frameOf o) = none) ∧
+    c'.opts = c.opts ∧ c'.server = c.server ∧ c'.client = c.client ∧ c'.serverMac = c.serverMac ∧
+    c'.clientMac = c.clientMac ∧ c'.ipv6 = c.ipv6 := by
+  obtain ⟨hd0, hds⟩ := hok
+  have htr' : PTrace cr csel t.core (insOf d0.pkts ++ allIns (items.map (·.2.2))) := by
+    simpa [allIns, List.flatMap_cons] using htr
+  obtain ⟨b1, b2, b3, b4, b5, b6, b7, b8, b9⟩ := hs_feed_step maskFn H Pc info hl kl0 L dcid0 cr csel ch sh ca sa early
+    sel hsel (hkl (kl0, p0, d0) (List.mem_cons_self ..)) t d0 hd0 _ c hr hpre htr' p0
+    (hcar (kl0, p0, d0) (List.mem_cons_self ..))
+  obtain ⟨i1, i2, i3, i4, i5, i6, i7, i8⟩ := hs_feed_rest maskFn H Pc info hl L dcid0 cr csel ch sh ca sa early sel hsel
+    items (fun x hx => hkl x (List.mem_cons_of_mem _ hx)) (t.run d0.pkts) _ b1 b2 hds b3
+    (fun x hx => by
+      obtain ⟨u1, u2, u3⟩ := hcar x (List.mem_cons_of_mem _ hx)
+      exact ⟨u1, u2, by rw [b6]; exact u3⟩)
+  intro c' t'
+  have hc' : c' = hsFeedAll (quicMachine maskFn H Pc info)
+      ((quicMachine maskFn H Pc info).feed c kl0 p0 (dgDcid d0) .v1) items := rfl
+  have ht' : t' = (t.run d0.pkts).runDgs (items.map (·.2.2)) := rfl
+  rw [hc', ht']
+  rw [show (t.runDgs (d0 :: items.map (·.2.2))) = (t.run d0.pkts).runDgs (items.map (·.2.2)) from rfl] at hkeyed
+  rw [hkeyed] at i2
+  exact ⟨i1, est_of_hsSt H Pc kl _ sel ch sh ca sa _ _ _ _ _ _ i2, i2.inv.out, i3.trans b4, i4.trans b5, i5.trans b6,
+    i6.trans b7, i7.trans b8, i8.trans b9⟩
+
+/-- After a Retry packet was handled (`retry_resets`: TLS session, decryptors and `self.keys` discarded; version, epochs,
+    packet-number tables, CID sets and `output_buffer` kept), the pre-loop part of the next `handle_packet` derives the
+    Initial keys from ITS routing DCID — the Retry's Source Connection ID when the datagram is the client's new Initial
+    (RFC 9001 §5.2) — and the session is in the handshake state of a fresh attempt, with the bookkeeping of the first. -/
+theorem after_retry_pre (kl kl' : List Keylog.Key) (h32 : H.sha256.outLen = 32) (dcid0 dcid' : Bytes) (sel : SuiteSel)
+    (ch sh ca sa : Bytes) (keyed : Bool) (s : St Tls) (tc ts : PnTab) (cc sc : List Bytes) (core : Tls)
+    (hst : HsSt H dcid0 sel ch sh ca sa keyed s tc ts cc sc core) :
+    HsSt H dcid' sel ch sh ca sa false
+      (feedPre H (params H Pc kl') (stampVer (retryReset (params H Pc kl) s)) dcid' .v1) tc ts cc sc {} := by
+  have hd : devInitial H .v1 dcid' = some
+      { clientKey := (quicInitialClientKeys H.sha256 dcid').key, clientIv := (quicInitialClientKeys H.sha256 dcid').iv,
+        clientHp := (quicInitialClientKeys H.sha256 dcid').hp, serverKey := (quicInitialServerKeys H.sha256 dcid').key,
+        serverIv := (quicInitialServerKeys H.sha256 dcid').iv, serverHp := (quicInitialServerKeys H.sha256 dcid').hp } := by
+    unfold devInitial
+    simp only [qver]
+    rw [C15.quic_initial_eq_rfc _ h32]
+  have hp : (params H Pc kl').devInitialKeys .v1 dcid' = (devInitial H .v1 dcid').map
+      fun k => (⟨k.serverKey, k.serverIv⟩, ⟨k.clientKey, k.clientIv⟩) := rfl
+  obtain ⟨i, nd, co, pc, ps, c1, c2, ky⟩ := hst
+  have hv := i.version
+  refine ⟨⟨?_, ?_, ?_, ?_, ?_, ?_, ?_, ?_, ?_, ?_⟩, ?_, ?_, ?_, ?_, ?_, ?_, by intro h; cases h⟩
+  all_goals simp [feedPre, handlePacketPre, latchVersion, retryReset, setInitialDecryptor, hp, hd, stampVer, hv,
+    HpKeys.withInitial, params, coreOf, initDec, i.ec, i.es, i.lpc, i.lps, pc, ps, c1, c2]
+  exact i.out
+
+/-- a Retry datagram (RFC 9000 §17.2.5) through `handle_packet`, in any handshake state: the Retry reset, nothing else -/
+theorem retry_feed (kl : List Keylog.Key) (dcid0 : Bytes) (r : Retry) (hwf : r.wf) (hver : r.version ≠ [0, 0, 0, 0])
+    (hscid : r.scid.length ≤ 63) (c : QConn) (hr : c.raised = none) (hinv : HsInv H dcid0 c.st)
+    (p : MainLoop.Pkt) (hp : p.payload = r.encode) (dcid : Bytes) :
+    (quicMachine maskFn H Pc info).feed c kl p dcid .v1 =
+      { c with st := stampVer (retryReset (params H Pc kl) c.st), raised := none } := by
+  have hpre : feedPre H (params H Pc kl) c.st dcid .v1 = c.st := feedPre_hs H _ dcid0 _ c.st hinv
+  have hne : r.encode ≠ [] := by unfold Retry.encode; simp
+  simp only [quicMachine, hr, sver]
+  rw [hp]
+  unfold handleDatagram
+  simp only [hpre]
+  rw [Lemmas.QuicDissect.dissectLoop_cons _ _ _ _ _ _ _ _ hne]
+  simp only [C02Dissect.dissect_encode_retry maskFn _ _ _ _ r hwf hver hscid]
+  have hturn : ∀ srv ts, handleTurn (params H Pc kl) (c.st, none) [r.toPkt srv ts] =
+      (stampVer (retryReset (params H Pc kl) c.st), none) := by
+    intro srv ts
+    unfold handleTurn
+    simp [handleQuicPackets, stepPkt, afterDecrypt, Retry.toPkt]
+  rw [hturn, Lemmas.QuicDissect.dissectLoop_nil]
+
+/-- the bookkeeping a Retry leaves: keys gone, parser fresh; packet numbers and CID sets of the first attempt stay -/
+def Trk.afterRetry (t : Trk) : Trk := ⟨false, t.tc, t.ts, t.cc, t.sc, {}⟩
+
+/-- **C02 for a connection with a Retry** (RFC 9000 §8.1.2, §17.2.5): the client's first Initial datagram(s), the server's
+    Retry (any SCID, any token), then the whole handshake again — the client's new Initial carries the Retry's SCID as
+    DCID (that is `dgDcid d0`: the Initial keys are derived from it, RFC 9001 §5.2) and the token (any length: `LongShape.tok`)
+    — and the 1-RTT phase. Conclusion as `quic_connection_exact`. The connection IDs learned from the first Initial stay in
+    the sets (`Trk.afterRetry`); the only thing asked of them is the `DcidOk` of every later datagram, which RFC 9000 §5.1
+    gives: the Retry SCID is a server-chosen CID, the stale first DCID sits in `server_cids` where it can only be taken for a
+    client→server CID, which is what it was. -/
+theorem quic_connection_exact_retry (hl : H.Lawful) (h32 : H.sha256.outLen = 32) (L : SealLaws Pc)
+    (hs : ConfHs) (hsok : hs.Ok) (ch sh ca sa : Bytes) (early : Option Bytes) (sel : SuiteSel)
+    (hsel : selectSuite hs.sh.cipherSuite = some sel)
+    (ho : (hashOf H sel.hash).outLen < 65536)
+    (hsa : sa.length = (hashOf H sel.hash).outLen) (hca : ca.length = (hashOf H sel.hash).outLen)
+    -- first attempt
+    (klA : List Keylog.Key) (pA : MainLoop.Pkt) (dA : DgH)
+    (hklA : KeylogHas klA hs.ch.random ch sh ca sa early)
+    (c : QConn) (hc : Fresh H Pc c)
+    (hokA : HsDgOk maskFn H Pc L (dgDcid dA) sel sh ch trk0 dA)
+    (htrA : PTrace hs.ch.random hs.sh.cipherSuite {} (insOf dA.pkts))
+    (hcarA : CarriesH info c (dgWire H Pc L (dgDcid dA) sel sh ch) pA dA)
+    -- the Retry
+    (klR : List Keylog.Key) (pR : MainLoop.Pkt) (r : Retry) (dcidR : Bytes) (hrwf : r.wf)
+    (hrver : r.version ≠ [0, 0, 0, 0]) (hrscid : r.scid.length ≤ 63) (hpR : pR.payload = r.encode)
+    -- second attempt
+    (kl0 : List Keylog.Key) (p0 : MainLoop.Pkt) (d0 : DgH) (items : List (List Keylog.Key × MainLoop.Pkt × DgH))
+    (hkl : ∀ x ∈ (kl0, p0, d0) :: items, KeylogHas x.1 hs.ch.random ch sh ca sa early)
+    (hok : HsDgs maskFn H Pc L (dgDcid d0) sel sh ch (trk0.run dA.pkts).afterRetry (d0 :: items.map (·.2.2)))
+    (hins : allIns (d0 :: items.map (·.2.2)) = hs.ins)
+    (hcar : ∀ x ∈ (kl0, p0, d0) :: items, CarriesH info c (dgWire H Pc L (dgDcid d0) sel sh ch) x.2.1 x.2.2)
+    (hkeyed : ((trk0.run dA.pkts).afterRetry.runDgs (d0 :: items.map (·.2.2))).keyed = true)
+    -- 1-RTT
+    (items1 : List (List Keylog.Key × MainLoop.Pkt × Dg1))
+    (hcar1 : ∀ x ∈ items1, Carries info c
+      (wireOf H Pc L sel .v1 (rfcGen (hashOf H sel.hash) sel.keyLen sa ca 0)) x.2.1 x.2.2)
+    (hsend : Send1 maskFn H Pc L sel .v1 (rfcGen (hashOf H sel.hash) sel.keyLen sa ca 0)
+      (quicHp (hashOf H sel.hash) ca sel.keyLen) (quicHp (hashOf H sel.hash) sa sel.keyLen)
+      (chachaOf ((trk0.run dA.pkts).afterRetry.runDgs (d0 :: items.map (·.2.2))).core) 0 0
+      ((trk0.run dA.pkts).afterRetry.runDgs (d0 :: items.map (·.2.2))).tc.app
+      ((trk0.run dA.pkts).afterRetry.runDgs (d0 :: items.map (·.2.2))).ts.app
+      ((trk0.run dA.pkts).afterRetry.runDgs (d0 :: items.map (·.2.2))).cc
+      ((trk0.run dA.pkts).afterRetry.runDgs (d0 :: items.map (·.2.2))).sc (items1.map (·.2.2)))
+    (htimes : ((items1.map (·.2.2)).map fun d => (d.x.ts, d.x.srv)).Pairwise (· ≠ ·)) :
+    let QM := quicMachine maskFn H Pc info
+    let c1 := QM.feed c klA pA (dgDcid dA) .v1
+    let c2 := QM.feed c1 klR pR dcidR .v1
+    let c3 := hsFeedAll QM c2 ((kl0, p0, d0) :: items)
+    (feedAll QM c3 items1).raised = none ∧
+    QM.out false (feedAll QM c3 items1) = expectedOut c (items1.map (·.2.2)) := by
+  intro QM c1 c2 c3
+  obtain ⟨hfresh, hr⟩ := hc
+  -- first attempt
+  have hpreA : HsSt H (dgDcid dA) sel ch sh ca sa trk0.keyed (feedPre H (params H Pc klA) c.st (dgDcid dA) .v1)
+      trk0.tc trk0.ts trk0.cc trk0.sc trk0.core := by
+    rw [hfresh]; exact feedPre_fresh H Pc klA h32 (dgDcid dA) sel ch sh ca sa
+  obtain ⟨a1, a2, _, a4, a5, a6, a7, a8, a9⟩ := hs_feed_step maskFn H Pc info hl klA L (dgDcid dA) hs.ch.random
+    hs.sh.cipherSuite ch sh ca sa early sel hsel hklA trk0 dA hokA [] c hr hpreA (by rw [List.append_nil]; exact htrA) pA hcarA
+  -- the Retry
+  have hc2 : c2 = { c1 with st := stampVer (retryReset (params H Pc klR) c1.st), raised := none } :=
+    retry_feed maskFn H Pc info klR (dgDcid dA) r hrwf hrver hrscid c1 a1 a2.inv pR hpR dcidR
+  have hpre2 : HsSt H (dgDcid d0) sel ch sh ca sa (trk0.run dA.pkts).afterRetry.keyed
+      (feedPre H (params H Pc kl0) c2.st (dgDcid d0) .v1) (trk0.run dA.pkts).afterRetry.tc
+      (trk0.run dA.pkts).afterRetry.ts (trk0.run dA.pkts).afterRetry.cc (trk0.run dA.pkts).afterRetry.sc
+      (trk0.run dA.pkts).afterRetry.core := by
+    rw [hc2]
+    exact after_retry_pre H Pc klR kl0 h32 (dgDcid dA) (dgDcid d0) sel ch sh ca sa _ c1.st _ _ _ _ _ a2
+  have hcar2 : ∀ x ∈ (kl0, p0, d0) :: items, CarriesH info c2 (dgWire H Pc L (dgDcid d0) sel sh ch) x.2.1 x.2.2 := by
+    intro x hx
+    obtain ⟨u1, u2, u3⟩ := hcar x hx
+    exact ⟨u1, u2, by rw [hc2]; show (x.2.1.src == c1.client) = _; rw [show c1.client = c.client from a6]; exact u3⟩
+  obtain ⟨e1, e2, e3, e4, e5, e6, e7, e8, e9⟩ := quic_handshake_establishes_from maskFn H Pc info hl L (dgDcid d0)
+    hs.ch.random hs.sh.cipherSuite ch sh ca sa early sel hsel (trk0.run dA.pkts).afterRetry kl0 p0 d0 items hkl c2
+    (by rw [hc2]) hpre2 hok (by rw [hins]; exact ptrace_of_conformant hs hsok) hcar2 hkeyed []
+  have hk := keysWf_rfc H hl Pc [] hs.sh.cipherSuite sel hsel .v1 ho sa ca hsa hca
+  have f4 : c3.opts = c.opts := by rw [show c3.opts = c2.opts from e4, hc2]; exact a4
+  have f5 : c3.server = c.server := by rw [show c3.server = c2.server from e5, hc2]; exact a5
+  have f6 : c3.client = c.client := by rw [show c3.client = c2.client from e6, hc2]; exact a6
+  have f7 : c3.serverMac = c.serverMac := by rw [show c3.serverMac = c2.serverMac from e7, hc2]; exact a7
+  have f8 : c3.clientMac = c.clientMac := by rw [show c3.clientMac = c2.clientMac from e8, hc2]; exact a8
+  have f9 : c3.ipv6 = c.ipv6 := by rw [show c3.ipv6 = c2.ipv6 from e9, hc2]; exact a9
+  obtain ⟨r1, r2⟩ := quic_one_rtt_connection_exact maskFn H Pc info [] L sel .v1 _ _ _ _ hk items1 c3 0 0 _ _ _ _ e1 e2 e3
+    (fun x hx => by
+      obtain ⟨u1, u2, u3⟩ := hcar1 x hx
+      exact ⟨u1, u2, by rw [f6]; exact u3⟩)
+    hsend htimes
+  refine ⟨r1, ?_⟩
+  rw [r2]
+  unfold expectedOut
+  rw [addressed_congr c c3 f4 f5 f6 f7 f8 f9]
+
+end RetryVariant
 end TLX.Props.C02Capstone
